@@ -1,7 +1,25 @@
 #!/bin/bash
-# Runs the repository's pinned test suite (guard OFF) and prints pass/fail counts.
+# Runs the repository's pinned test suite with the guard OFF (no -tags verif) and compares with /root/.vp/BASELINE.json.
 export GOFLAGS=-mod=mod GOPROXY=off GOSUMDB=off GOTOOLCHAIN=local
-rc=0
-for m in module minter-connector; do
-  (cd /repo/$m && go test -vet=off -count=1 -timeout 25m ./... 2>&1) | grep -v "no test files" || true
-done
+(cd /repo/module && go test -json -vet=off -count=1 -timeout 25m ./... 2>/dev/null) > /tmp/verif_baseline.json
+python3 - <<'PY'
+import json, sys
+base = json.load(open('/root/.vp/BASELINE.json'))
+want = set(base['stable_pass'])
+got = set()
+for l in open('/tmp/verif_baseline.json'):
+    try:
+        e = json.loads(l)
+    except Exception:
+        continue
+    if e.get('Action') == 'pass' and e.get('Test'):
+        got.add(e['Package'] + '::' + e['Test'])
+missing = sorted(want - got)
+print('baseline: %d/%d pinned tests pass with the guard off' % (len(want & got), len(want)))
+for m in missing:
+    print('MISSING', m)
+sys.exit(1 if missing else 0)
+PY
+rc=$?
+rm -f /tmp/verif_baseline.json
+exit $rc
